@@ -23,7 +23,10 @@ type caseC03 struct {
 func genC03(t *rapid.T, ev *evid.Rec) caseC03 {
 	c := caseC03{Env: gen.Env(t, 0)}
 	before := gen.TrailingCRExcluded
-	c.Doc = gen.Doc(t, gen.Opts{MaxRecords: 5, NearDay: c.Env.NowDay, NearSpan: 3, MaxEntries: 4, Controls: true, InvalidUTF8: true})
+	c.Doc = gen.Doc(t, gen.Opts{MaxRecords: 5, NearDay: c.Env.NowDay, NearSpan: 3, MaxEntries: 4, Controls: true, InvalidUTF8: true, TabSeparators: true})
+	if rapid.IntRange(0, 11).Draw(t, "edgeDates") == 0 {
+		gen.EdgeDates(t, &c.Doc)
+	}
 	for i := before; i < gen.TrailingCRExcluded; i++ {
 		ev.Exclude("summary-line-ending-in-lone-CR")
 	}
